@@ -114,6 +114,9 @@ pub struct Profile {
     pub start_past_legacy: bool,
     /// a third of the ordinary transactions try to spend the first output of a staking transaction
     pub prefer_staked: bool,
+    /// a quarter of the ordinary transactions take, as their first input, a *non-first* output of a staking transaction
+    /// (one accepted earlier or one built earlier in the same batch) when the wallet holds one
+    pub prefer_stake_change: bool,
     /// half of the mainnet/testnet histories start above the legacy heights (979 000), like `start_past_legacy`
     pub past_legacy_half: bool,
     /// number of small MEL coins in the seed funds (each withdrawal burns one as its fee)
@@ -155,6 +158,7 @@ impl Profile {
             warp: false,
             start_past_legacy: false,
             prefer_staked: false,
+            prefer_stake_change: false,
             past_legacy_half: false,
             nuggets: 4,
             grandfathered_faucet: false,
@@ -702,6 +706,8 @@ pub struct Builder<'a> {
     pub pool_states: BTreeMap<PoolKey, melstructs::PoolState>,
     /// pools that do not exist but whose (forged) liquidity tokens the wallet holds
     pub forged_new: Vec<PoolKey>,
+    /// staking transactions built earlier in this batch
+    pub batch_stakes: Vec<TxHash>,
 }
 
 impl<'a> Builder<'a> {
@@ -733,7 +739,7 @@ impl<'a> Builder<'a> {
                 }
             }
         }
-        Builder { w, p, avail: w.wallet.clone(), mult: snap.fee_mult, height: snap.height, pools, batch_created: vec![], batch_spent: vec![], batch_faucet_fees: 0, pool_liqs: snap.pools.iter().filter(|(k, p)| k.left() != k.right() && p.liqs > 0).map(|(k, p)| (*k, p.liqs)).collect(), pool_states: snap.pools.clone(), forged_new }
+        Builder { w, p, avail: w.wallet.clone(), mult: snap.fee_mult, height: snap.height, pools, batch_created: vec![], batch_spent: vec![], batch_faucet_fees: 0, pool_liqs: snap.pools.iter().filter(|(k, p)| k.left() != k.right() && p.liqs > 0).map(|(k, p)| (*k, p.liqs)).collect(), pool_states: snap.pools.clone(), forged_new, batch_stakes: vec![] }
     }
 
     /// Destination address of a generic output: usually one of the harness's covenants; one in sixteen is a *twin* of
@@ -759,6 +765,9 @@ impl<'a> Builder<'a> {
     fn after(&mut self, b: &Built) {
         // outputs become spendable inside the batch
         let h = b.tx.hash_nosigs();
+        if b.tx.kind == TxKind::Stake {
+            self.batch_stakes.push(h);
+        }
         for (i, o) in b.tx.outputs.iter().enumerate().take(255) {
             if let Some(spec) = self.w.spec_for(o.covhash) {
                 let mut cd = o.clone();
@@ -889,6 +898,17 @@ impl<'a> Builder<'a> {
                 staked_pos = Some(tp.amount % 2 == 0);
             }
         }
+        if self.p.prefer_stake_change && staked_pos.is_none() && tp.amount % 4 == 1 {
+            let mut staked: Vec<TxHash> = self.w.staked_txs.iter().map(|x| x.0).collect();
+            staked.extend(self.batch_stakes.iter().copied());
+            let cands: Vec<usize> = self.avail.iter().enumerate().filter(|(_, c)| c.id.index >= 1 && staked.contains(&c.id.txhash)).map(|(i, _)| i).collect();
+            if !cands.is_empty() {
+                let i = cands[sel(tp.pool, cands.len())];
+                let c = self.avail.remove(i);
+                self.avail.insert(0, c);
+                ins.insert(0, 0);
+            }
+        }
         let mut inputs = pick_inputs(&ins, &mut self.avail, &[]);
         if staked_pos == Some(false) && inputs.len() >= 2 && !matches!(inputs[0].cov, CovSpec::SigLegacy(_)) {
             // the staked coin goes last, behind coins that may share its covenant
@@ -1000,6 +1020,25 @@ impl<'a> Builder<'a> {
         let h = self.height;
         if h == 0 {
             return None;
+        }
+        if tp.mparam % 8 == 5 {
+            // a mint whose seed coin was created in the block under construction (age 0: there is no header yet to
+            // derive the puzzle from, and no elapsed time to measure a speed over): well-formed data, any proof
+            if let Some(idx) = self.avail.iter().position(|c| c.cdh.coin_data.denom == Denom::Mel && c.cdh.height.0 == h && c.cdh.coin_data.value.0 > 0) {
+                let coin = self.avail.remove(idx);
+                let inputs = vec![coin];
+                let mut tx = self.base(TxKind::DoscMint, &inputs);
+                let difficulty = [1u32, 2, 10, 32, 64, 65][(tp.amount % 6) as usize];
+                let proof = vec![(tp.amount >> 3) as u8; 40 * (tp.data as usize % 3)];
+                tx.data = mint_data(difficulty, &proof, 0).into();
+                tx.outputs.push(CoinData { covhash: self.dest(tp.outs[0].dest).hash(), value: CoinValue((tp.data % 2) as u128), denom: Denom::Erg, additional_data: Default::default() });
+                let totals = Self::totals(&inputs);
+                let tp2 = TxPlan { outs: tp.outs[1..].to_vec(), ..tp.clone() };
+                let mel_slots = self.change_outputs(&mut tx, &tp2, &totals, &BTreeMap::new());
+                let mut b = self.finish(tx, inputs, tp, &mel_slots, 0);
+                b.valid = false;
+                return Some(b);
+            }
         }
         let idx = self.avail.iter().position(|c| {
             c.cdh.coin_data.denom == Denom::Mel && c.cdh.height.0 < h && c.cdh.coin_data.value.0 > 0 && self.w.header_at(c.cdh.height.0).is_some() && !self.batch_created.contains(&c.id)
@@ -1202,6 +1241,13 @@ impl<'a> Builder<'a> {
             a = a.max(hl.min(1));
             b = b.max(hr.min(1));
         }
+        // one-sided deposits (zero on the left or on the right): alone they are left unsettled; two of them with the
+        // zeros on different sides form a batch that settles, in which every single deposit has weight sqrt(a*b) = 0
+        match tp.amount % 16 {
+            13 => a = 0,
+            14 => b = 0,
+            _ => {}
+        }
         let odd = (tp.spell as u32) < self.p.p_odd_spelling;
         let (data, spelling) = spell_pool(k, tp.mparam as u8, odd);
         tx.data = data.into();
@@ -1299,7 +1345,8 @@ impl<'a> Builder<'a> {
         if have == 0 {
             return None;
         }
-        let amt = amount_class(tp.amount, have).max(1);
+        // one stake in sixteen declares (and locks) exactly zero SYM: a consistent document all the same
+        let amt = if tp.amount % 16 == 5 { 0 } else { amount_class(tp.amount, have).max(1) };
         let epoch = self.height / 200_000;
         let (start, end) = match tp.spell % 8 {
             0 | 1 | 2 | 3 => (epoch + 1, epoch + 2 + (tp.spell as u64 % 3)),
